@@ -59,6 +59,7 @@ def run_script(script, comp='e2e'):
     import fakenet
     fakenet.install()
     fakenet.NET.servers.clear()
+    rt.kill_stragglers()
     import scales.dispatch as dispatch
     from scales.asynchronous import AsyncResult
     from scales.message import TimeoutError as STimeout
@@ -295,6 +296,6 @@ def run_script(script, comp='e2e'):
     finally:
         dispatch.AsyncResult = saved_ar
         fakenet.FakeScalesSocket.open = orig_open
-    rt.take_errors()
+    rt.kill_stragglers()
     tags.add(stack)
     return {'comp': comp, 'cfg': stack, 'steps': [[e, 'ok'] for e in events], 'tags': sorted(tags)}
